@@ -126,8 +126,22 @@ ApiFails(ev, before) ==
     (IF ~valid /\ ev.circ # before THEN {F_("C19", <<"a refused call changed the circuit", ev.kind>>, "api-sideeffect")} ELSE {}) \cup
     \* the object must stay internally consistent (its own check()) after every call, refused or not
     (IF ev.check # "" THEN {F_("C19", <<"Circuit::check() fails after the call", ev.kind, ev.outcome, ev.check>>, "api-inconsistent")} ELSE {}) \cup
+    \* the state after a valid call is the one the arguments define.  A difference is a failure of every property that is stated over
+    \* the attribute concerned, as given by the caller: polarities (C04), fixed / obstruction flags and rows (C15: what counts as an
+    \* obstruction, where the rows are), geometry and pins (C09), net weights (C17)
     (IF valid /\ ev.outcome = "ok" /\ ev.circ # exp
-     THEN {F_("note", <<"state after the call differs from the abstract data type", ev.kind, ev.arg>>, "api-effect-diff")}
+     THEN LET m == Len(exp.cells)
+              same == Len(ev.circ.cells) = m
+              diffOf(f(_)) == ~same \/ \E k \in 1..m : f(ev.circ.cells[k]) # f(exp.cells[k])
+              pins(c) == [k \in 1..Len(c.nets) |-> c.nets[k].pins]
+              wts(c) == [k \in 1..Len(c.nets) |-> c.nets[k].wt] IN
+          {F_("note", <<"state after the call differs from the abstract data type", ev.kind, ev.arg>>, "api-effect-diff")} \cup
+          (IF diffOf(LAMBDA e : e.p) THEN {F_("C04", <<"row polarities stored by the circuit differ from those given", ev.kind>>, "api-state-polarity")} ELSE {}) \cup
+          (IF diffOf(LAMBDA e : <<e.f, e.ob>>) \/ ev.circ.rows # exp.rows
+           THEN {F_("C15", <<"fixed / obstruction flags or rows stored by the circuit differ from those given", ev.kind>>, "api-state-flags")} ELSE {}) \cup
+          (IF diffOf(LAMBDA e : <<e.x, e.y, e.w, e.h, e.o>>) \/ pins(ev.circ) # pins(exp)
+           THEN {F_("C09", <<"geometry or pins stored by the circuit differ from those given", ev.kind>>, "api-state-geometry")} ELSE {}) \cup
+          (IF wts(ev.circ) # wts(exp) THEN {F_("C17", <<"net weights stored by the circuit differ from those given", ev.kind>>, "api-state-weights")} ELSE {})
      ELSE {F_("note", <<"api">>, "api-effect-same")}) \cup
     \* C09 on the state the calls define (not on the state the object claims to have)
     (IF (valid => ev.outcome = "ok") /\ ev.wl # Hpwl(exp)
